@@ -181,6 +181,38 @@ func scenarios() []scenario {
 			var tick uint32
 			e.Go("tick", func() { w.SM.VerifTick(&tick) })
 		}},
+		{Name: "rtsp-pub-udp-two-tracks", Conf: world.Conf{"rtsp.enable": true}, Build: func(w *world.W, e *sched.Exec) {
+			// an RTSP publisher whose RTP arrives over UDP: lal reads each track's socket in a goroutine
+			// of its own, so the audio and the video datagrams are handled concurrently
+			pub := rtspScript(
+				ref.RtspRequest("ANNOUNCE", rtspUri, 1, map[string]string{"Content-Type": "application/sdp"}, sdpAV()),
+				ref.RtspRequest("SETUP", rtspUri+"/streamid=0", 2, map[string]string{"Transport": "RTP/AVP/TCP;unicast;interleaved=0-1;mode=record"}, nil),
+				ref.RtspRequest("SETUP", rtspUri+"/streamid=1", 3, map[string]string{"Transport": "RTP/AVP/TCP;unicast;interleaved=2-3;mode=record"}, nil),
+				ref.RtspRequest("RECORD", rtspUri, 4, nil, nil))
+			srv := logic.VerifRtspServer(w.SM)
+			cp := sched.NewConn("rtsppub", pub)
+			cp.AtEOF = e.Yield // the publisher stays connected while its datagrams arrive
+			e.Go("rtsp-publisher", func() { rtsp.VerifHandleConn(srv, cp) })
+			feed := func(name string, pkts ...[]byte) {
+				e.Go(name, func() {
+					ps := logic.VerifRtspPubSession(w.SM, "s")
+					if ps == nil {
+						return // datagrams before the session exists go nowhere
+					}
+					for _, p := range pkts {
+						rtsp.VerifOnReadRtp(rtsp.VerifBaseIn(ps), p)
+					}
+				})
+			}
+			v := func(seq uint16, ts uint32) []byte {
+				return ref.BuildRtp(ref.Rtp{Marker: true, PT: 96, Seq: seq, Ts: ts, Ssrc: 7, Payload: []byte{0x65, 1, 2, 3, byte(seq)}})
+			}
+			a := func(seq uint16, ts uint32) []byte {
+				return ref.BuildRtp(ref.Rtp{Marker: true, PT: 97, Seq: seq, Ts: ts, Ssrc: 8, Payload: ref.PackAacHbr([]byte{1, 2, byte(seq)})})
+			}
+			feed("udp-video", v(1, 0), v(2, 3600))
+			feed("udp-audio", a(1, 0), a(2, 1024))
+		}},
 		{Name: "pub+api-pull+rtp-pub", Build: func(w *world.W, e *sched.Exec) {
 			rtmpThread(w, e, "publisher", rtmpScript("publish", "s", mediaMsgs(1)))
 			e.Go("api-start-rtp-pub", func() {
